@@ -20,8 +20,11 @@ use std::time::Duration;
 use vcore::pool::{WOut, run_resumable, worker_main};
 use vcore::report::{Ctx, panic_msg};
 
-pub const ALPHA: [&str; 28] = [
-    "%", "{", "}", "[", "]", "(", ")", ",", ":", "!", "\"", "'", "\\", "/", "*", "|", ";", "<", ">", "-", "+", "a", "0", "9", " ", "\n", "é", "☃",
+/// One representative of every lexical class of the three parsers, including every class of
+/// white space they distinguish (blank, tab, LF, CR, VT, FF, NEL, line separator, no-break space,
+/// left-to-right mark).
+pub const ALPHA: [&str; 37] = [
+    "%", "{", "}", "[", "]", "(", ")", ",", ":", "!", "\"", "'", "\\", "/", "*", "|", ";", "<", ">", "-", "+", "a", "0", "9", " ", "\n", "é", "☃", "\t", "\r", "\u{b}", "\u{c}", "\u{85}", "\u{2028}", "\u{a0}", "\u{200e}", "=",
 ];
 
 const EPS: [&str; 9] = [
@@ -405,7 +408,7 @@ pub fn run(ctx: Ctx) -> i32 {
         judge(&ctx, &c, &res[0]);
         return ctx.finish(json!({"states":1,"transitions":1,"traces_validated_against_impl":1,"samples":[case]}), &[], false);
     }
-    let (la, lb) = if ctx.quick() { (3, 3) } else { (5, 4) };
+    let (la, lb) = if ctx.quick() { (3, 2) } else { (4, 3) };
     let mut cases: Vec<Value> = vec![];
     for ep in 0..EPS.len() {
         // (A)
@@ -495,9 +498,9 @@ pub fn run(ctx: Ctx) -> i32 {
         "traces_validated_against_impl": nok + nerr,
         "evaluations": total_items,
         "distinct_nontrivial": nok,
-        "rule": "input strings per entry point: (A) all strings over a 28-symbol alphabet up to the bound, (B) context prefix + all short strings, (C) all truncations and single-character edits of seed specifications + numeric boundary values; non-trivial = inputs the parser accepted",
+        "rule": "input strings per entry point: (A) all strings over a 37-symbol alphabet up to the bound, (B) context prefix + all short strings, (C) all truncations and single-character edits of seed specifications + numeric boundary values; non-trivial = inputs the parser accepted",
         "entry_points": EPS,
-        "alphabet": ALPHA,
+        "alphabet": ALPHA.to_vec(),
         "max_len_A": la,
         "max_len_B": lb,
         "inputs_accepted": nok,
